@@ -75,6 +75,11 @@ func cmdRun(args []string) {
 			job.Preempt = 2
 		case strings.HasPrefix(a, "--primary="):
 			job.Primary = strings.TrimPrefix(a, "--primary=")
+		case strings.HasPrefix(a, "--random="):
+			job.RandomModels, _ = strconv.Atoi(strings.TrimPrefix(a, "--random="))
+		case strings.HasPrefix(a, "--feas="):
+			ms, _ := strconv.Atoi(strings.TrimPrefix(a, "--feas="))
+			job.FeasTimeout = time.Duration(ms) * time.Millisecond
 		case strings.HasPrefix(a, "--loop="):
 			job.LoopBound, _ = strconv.Atoi(strings.TrimPrefix(a, "--loop="))
 		default:
